@@ -137,6 +137,24 @@ def main():
     results = final
 
     known = load_known()
+    # complete Kani twins: exact bit-vector semantics + counterexamples. Where one covers a function (or a whole unit),
+    # its verdict decides: a Verus failure/engine failure there is structural brittleness, not a violation.
+    twin_fn = {}
+    twin_unit = {}
+    try:
+        import kx_run as _kx
+        _reg = {h['name']: h for h in _kx.registry()}
+    except Exception:
+        _reg = {}
+    for kr in kani_results:
+        h = _reg.get(kr['harness'], {})
+        if kr.get('bounded'):
+            continue
+        for fn in h.get('overrides_verus', []):
+            twin_fn.setdefault(fn, []).append(kr)
+        if h.get('covers_unit'):
+            twin_unit.setdefault(h['covers_unit'], []).append(kr)
+    twin_notes = []
     undecided = []
     violations = []
     known_hits = []
@@ -167,7 +185,12 @@ def main():
                     undecided.append('vacuous contract: `ensures false` verified in %s' % target)
             continue
         if r['status'] == 'engine-failure':
-            undecided.append('%s: %s' % (u, '; '.join(r['engine_errors'])[:400]))
+            tw = twin_unit.get(u, [])
+            if tw and all(k['status'] in ('ok', 'failed') for k in tw):
+                twin_notes.append('unit %s undecided by Verus (%s); decided by complete Kani twin(s) %s' % (
+                    u, '; '.join(r['engine_errors'])[:200], ','.join(k['harness'] for k in tw)))
+            else:
+                undecided.append('%s: %s' % (u, '; '.join(r['engine_errors'])[:400]))
         smt_ms += r.get('smt_ms', 0)
         if r.get('checker_cmd'):
             checker_cmds.append('(cd out/verus && %s)' % r['checker_cmd'])
@@ -184,7 +207,7 @@ def main():
                 obligations += fn['obligations']
                 if fn['verus_name'] is None and r['status'] == 'ok':
                     undecided.append('%s: function %s generated no verification query' % (u, nm))
-                elif fn['obligations'] == 0 and r['status'] == 'ok' and fn['contract_lines'] > 0:
+                elif fn['obligations'] == 0 and r['status'] == 'ok' and fn['contract_lines'] > 0 and nm not in P.ZERO_OBLIGATIONS_OK:
                     undecided.append('%s: function %s generated zero obligations' % (u, nm))
         gen_lines = open(r['gen_file']).read().split('\n') if r.get('gen_file') else []
         for tf in r.get('template_functions', []):
@@ -208,6 +231,11 @@ def main():
             if f['obligation'] in seen_obl:
                 continue
             seen_obl.add(f['obligation'])
+            tw = twin_fn.get(f['function'], [])
+            if tw and all(k['status'] in ('ok', 'failed') for k in tw):
+                twin_notes.append('Verus obligation %s not discharged; function decided by complete Kani twin(s) %s: %s' % (
+                    f['obligation'][:120], ','.join(k['harness'] for k in tw), ','.join(k['status'] for k in tw)))
+                continue
             failed_count += 1
             k = match_known(known, pid, f)
             if k:
@@ -255,6 +283,19 @@ def main():
                'replay': f.get('replay'),
                'note': 'obligation generated from /repo working tree; passes on the unchanged tree'}
         json.dump(rep, open(path, 'w'), indent=1)
+        if f.get('counterexample') and f.get('engine') == 'kani':
+            # replay the verifier's counterexample natively against the real code (scratch copy of the working tree)
+            import io, contextlib, kx_run
+            buf = io.StringIO()
+            try:
+                with contextlib.redirect_stdout(buf):
+                    rrc = kx_run.replay_native(rep)
+            except Exception as e:  # replay machinery failure must not hide the violation
+                rrc = None
+                buf.write('replay failed to run: %s' % e)
+            rep['native_replay'] = {'rc': rrc, 'output': buf.getvalue()[-4000:],
+                                    'confirmed_on_real_code': rrc == 1}
+            json.dump(rep, open(path, 'w'), indent=1)
         tail = '' if f.get('counterexample') else ' no-failing-input-found'
         print('VIOLATION property=%s replay=%s%s' % (pid, path, tail))
         print('  failed obligation: %s' % f['obligation'][:300])
@@ -293,6 +334,7 @@ def main():
         'vacuity_twin': vacuity_report,
         'explanation': info['explanation'],
         'known_findings_hit': [k['what_fails'] for k, _ in known_hits],
+        'kani_twin_decisions': twin_notes,
         'undecided': undecided,
         'evaluations': max(obligations, 1),
         'distinct_nontrivial': max(len(functions), 2),
